@@ -982,6 +982,16 @@ fn gen_inputs(family: &str, rng: &mut Rng, n: usize, seeds: &[String]) -> Vec<St
                 v.push(token_pairs(rng));
             }
         }
+        "opgap" => {
+            for _ in 0..n {
+                v.push(op_gap(rng));
+            }
+        }
+        "unclosed" => {
+            for _ in 0..n {
+                v.push(unclosed_conditional(rng));
+            }
+        }
         "pairs_enum" => {
             for i in 0..n {
                 v.push(token_pairs_enum(i));
@@ -1306,7 +1316,7 @@ fn cmd_emit(a: &Args) {
             if fam == "boundary" {
                 cfg.wrap_column = boundary_width(&input, &cfg, &mut r);
             }
-            let well_formed = matches!(fam.as_str(), "grammar" | "layout" | "seeds" | "seeds_sample" | "regions" | "mlsfam" | "boundary" | "c11mini" | "asmreg")
+            let well_formed = matches!(fam.as_str(), "grammar" | "layout" | "seeds" | "seeds_sample" | "regions" | "mlsfam" | "boundary" | "c11mini" | "asmreg" | "opgap")
                 && !(fam.starts_with("seeds") && oracles::has_unterminated_token(&input));
             let mut cursors = vec![];
             if oracle_list.iter().any(|o| o == "c15") {
